@@ -68,7 +68,15 @@ def rerun(rec):
     if rec.get('counterexample'):
         return replay_kani(rec['obligation'].split('::')[-1], rec['counterexample'])
     unit = (rec.get('native_replay') or {}).get('unit')
-    return search(unit) if unit else {'found': False, 'note': 'no native replay recorded for this obligation'}
+    if not unit:
+        return {'found': False, 'note': 'no native replay recorded for this obligation'}
+    # statements of recorded known findings are skipped, exactly as in the check itself
+    try:
+        kf = json.load(open(os.path.join(HERE, 'known_findings.json'))).get('findings', [])
+        skip = [f for k in kf if k.get('status') == 'known' for f in k.get('native_skip', [])]
+    except Exception:
+        skip = []
+    return search(unit, tier=rec.get('tier', 'quick'), skip=skip)
 
 
 if __name__ == '__main__':
